@@ -140,7 +140,7 @@ func Expect(ctx context.Context, in *stream.Info, d xml.TokenReader, recv, ws bo
 			switch {
 			case tok.Name.Local == "error" && tok.Name.Space == stream.NS:
 				se := stream.Error{}
-				if err := xml.NewTokenDecoder(d).DecodeElement(&se, &tok); err != nil {
+				if err := xml.NewTokenDecoder(xmlstream.MultiReader(xmlstream.Token(tok), d)).Decode(&se); err != nil {
 					return err
 				}
 				return se
